@@ -304,3 +304,102 @@ package types
 
 // what NewHttpContext establishes (none of these fields is assigned afterwards)
 //@ spec ctxOK(c *HttpContext) bool = c != nil && c.EventEmitter != nil && c.request != nil && c.response != nil && c.headers != nil && c.query != nil && c.ResponseHeaders != nil && c.query != c.headers
+
+// ---- CORS (C17) ---------------------------------------------------------------------------------------------------
+//@ spec corsOK(c *cors) bool = c != nil && c.options != nil && c.ctx != nil && c.ctx.headers != nil && c.ctx.ResponseHeaders != nil
+
+//@ func (*cors).isOriginAllowed(origin, allowedOrigin)
+//@   props C17
+//@   requires c != nil
+//@   modifies nothing
+//@   ensures [C17.allow.string] typeis(allowedOrigin, string) ==> result == (origin == unbox(allowedOrigin, string))
+//@   ensures [C17.allow.bool]   typeis(allowedOrigin, bool) ==> result == unbox(allowedOrigin, bool)
+//@   ensures [C17.allow.other]  !typeis(allowedOrigin, string) && !typeis(allowedOrigin, bool) && !typeis(allowedOrigin, *regexp.Regexp) && !typeis(allowedOrigin, []any) ==> !result
+
+// Access-Control-Allow-Origin: '*' for the wildcard policy (no Vary); the configured string for a fixed origin; otherwise
+// the request's own Origin exactly when the policy allows it ("false" when it does not) - and Vary: Origin whenever the
+// value is not the wildcard, for allowed and for rejected origins alike
+//@ func (*cors).configureOrigin()
+//@   props C17
+//@   requires corsOK(c)
+//@   opt splitappend
+//@   modifies c.headers, c.varys, Mem(c.headers), Mem(c.varys)
+//@   let o      = old(c.options.Origin)
+//@   let star   = typeis(o, string) && unbox(o, string) == "*"
+//@   let fixed  = typeis(o, string) && unbox(o, string) != "*"
+//@   let origin = uf_s_peek(c.ctx.headers, "Origin", old(c.ctx.headers.$bagver))
+//@   let last   = c.headers[len(c.headers) - 1]
+//@   ensures [C17.acao.one]     result == c && len(c.headers) == len(old(c.headers)) + 1 && last != nil && last.Key == "Access-Control-Allow-Origin"
+//@   ensures [C17.acao.star]    star ==> last.Value == "*" && len(c.varys) == len(old(c.varys))
+//@   ensures [C17.acao.fixed]   fixed ==> last.Value == unbox(o, string)
+//@   ensures [C17.acao.reflect] !typeis(o, string) && ret((*cors).isOriginAllowed, 1) ==> last.Value == origin
+//@   ensures [C17.acao.reject]  !typeis(o, string) && !ret((*cors).isOriginAllowed, 1) ==> last.Value == "false"
+//@   ensures [C17.acao.asked]   !typeis(o, string) ==> arg((*cors).isOriginAllowed, 1, origin) == origin && arg((*cors).isOriginAllowed, 1, allowedOrigin) == o
+//@   ensures [C17.vary.origin]  !star ==> len(c.varys) == len(old(c.varys)) + 1 && c.varys[len(c.varys) - 1] == "Origin"
+
+//@ func (*cors).configureCredentials()
+//@   props C17
+//@   requires corsOK(c)
+//@   opt splitappend
+//@   modifies c.headers, Mem(c.headers)
+//@   ensures [C17.cred.on]  old(c.options.Credentials) ==> len(c.headers) == len(old(c.headers)) + 1 && c.headers[len(c.headers) - 1] != nil && c.headers[len(c.headers) - 1].Key == "Access-Control-Allow-Credentials" && c.headers[len(c.headers) - 1].Value == "true"
+//@   ensures [C17.cred.off] !old(c.options.Credentials) ==> len(c.headers) == len(old(c.headers)) && backing(c.headers) == backing(old(c.headers))
+//@   ensures result == c
+
+// every collected header is written to the response; Vary is merged (a response that already varies on everything stays '*')
+//@ func (*cors).applyHeaders()
+//@   props C17
+//@   requires corsOK(c)
+//@   modifies c.ctx.ResponseHeaders.$bagver
+//@   loop 1 invariant corsOK(c) && calls((*utils.ParameterBag).Set) == $i
+//@   loop 1 assumes forall k int :: 0 <= k && k < len(c.headers) ==> c.headers[k] != nil   // the configure* steps only append freshly built entries
+//@   let vary = ret((*utils.ParameterBag).Peek, 1)
+//@   ensures [C17.apply.all]  calls((*utils.ParameterBag).Set) >= len(old(c.headers))
+//@   ensures [C17.vary.star]  vary == "*" ==> calls((*utils.ParameterBag).Set) == len(old(c.headers)) + 1 && calls(parseVary) == 0
+//@   ensures [C17.vary.merge] vary != "*" && len(old(c.varys)) > 0 ==> calls(parseVary) == 1 && arg(parseVary, 1, vary) == vary && calls((*Set).Add) == 1 && calls((*utils.ParameterBag).Set) == len(old(c.headers)) + 1
+//@   ensures [C17.vary.none]  vary != "*" && len(old(c.varys)) == 0 ==> calls((*utils.ParameterBag).Set) == len(old(c.headers))
+//@   callsite (*utils.ParameterBag).Set#1
+//@     assert [C17.apply.each] $p == c.ctx.ResponseHeaders && $key == header.Key && $value == header.Value
+
+//@ func parseVary(vary)
+//@   props C17, C09
+//@   modifies nothing
+//@   loop 1 invariant 0 <= start && start <= end && end <= i && i <= l && l == len(vary) && list != nil
+//@   loop 1 decreases l - i
+//@   ensures [C17.vary.parsed] result != nil && fresh(result)
+
+// the middleware: preflight requests are answered here (status, Content-Length: 0, one write, the chain stops) unless the
+// policy passes them on; every other request gets the origin / credentials / exposed headers and continues
+//@ func CorsMiddleware(options, ctx, next)
+//@   props C17
+//@   requires options != nil && ctxOK(ctx) && next != nil
+//@   dyncall next noeffect
+//@   modifies *
+//@   let preflight = ret((*HttpContext).Method, 1) == "OPTIONS"
+//@   ensures [C17.preflight.answer]   preflight && !old(options.PreflightContinue) ==> calls(next) == 0 && calls((*HttpContext).Write) == 1 && calls((*HttpContext).SetStatusCode) == 1 && arg((*HttpContext).SetStatusCode, 1, statusCode) == old(options.OptionsSuccessStatus)
+//@   ensures [C17.preflight.length]   preflight && !old(options.PreflightContinue) ==> calls((*utils.ParameterBag).Set) == 1 && arg((*utils.ParameterBag).Set, 1, key) == "Content-Length" && arg((*utils.ParameterBag).Set, 1, value) == "0" && arg((*utils.ParameterBag).Set, 1, p) == ctx.ResponseHeaders
+//@   ensures [C17.preflight.continue] preflight && old(options.PreflightContinue) ==> calls(next) == 1 && arg(next, 1, 0) == nil && calls((*HttpContext).Write) == 0
+//@   ensures [C17.actual]             !preflight ==> calls(next) == 1 && arg(next, 1, 0) == nil && calls((*HttpContext).Write) == 0 && calls((*cors).configureMethods) == 0
+//@   ensures [C17.cors.pipeline]      calls((*cors).configureOrigin) == 1 && calls((*cors).configureCredentials) == 1 && calls((*cors).configureExposedHeaders) == 1 && calls((*cors).applyHeaders) == 1 && before((*cors).configureOrigin, 1, (*cors).applyHeaders, 1) && before((*cors).configureCredentials, 1, (*cors).applyHeaders, 1)
+//@   ensures [C17.cors.preflightextra] preflight ==> calls((*cors).configureMethods) == 1 && calls((*cors).configureAllowedHeaders) == 1 && calls((*cors).configureMaxAge) == 1
+
+//@ func (*cors).configureMethods()
+//@   requires corsOK(c)
+//@   modifies c.headers, Mem(c.headers)
+//@   opt noframe
+//@   ensures result == c
+//@ func (*cors).configureAllowedHeaders()
+//@   requires corsOK(c)
+//@   modifies c.headers, c.varys, Mem(c.headers), Mem(c.varys)
+//@   opt noframe
+//@   ensures result == c
+//@ func (*cors).configureExposedHeaders()
+//@   requires corsOK(c)
+//@   modifies c.headers, Mem(c.headers)
+//@   opt noframe
+//@   ensures result == c
+//@ func (*cors).configureMaxAge()
+//@   requires corsOK(c)
+//@   modifies c.headers, Mem(c.headers)
+//@   opt noframe
+//@   ensures result == c
